@@ -28,6 +28,7 @@ import (
 	"strings"
 
 	"github.com/projectcalico/calico/felix/bpf/arp"
+	"github.com/projectcalico/calico/felix/bpf/conntrack/cleanupv1"
 	conntrack "github.com/projectcalico/calico/felix/bpf/conntrack/v4"
 	"github.com/projectcalico/calico/felix/bpf/failsafes"
 	"github.com/projectcalico/calico/felix/bpf/ifstate"
@@ -472,6 +473,8 @@ func buildRows() {
 		add("4", "cali_rt_key", "", 0, len(k0), "exact", "routes.KeySize")
 		o, n := diffRange(k0, routes.NewKey(ip.MustParseCIDROrIP("0.0.0.0/32")).AsBytes(), "rt key prefix")
 		add("4", "cali_rt_key", "prefixlen", o, n, "within", "routes.NewKey(prefix)")
+		o, n = oneHot(len(k0), func(b []byte) string { var k routes.Key; copy(k[:], b); return fmt.Sprint(k.PrefixLen()) }, "routes.Key.PrefixLen")
+		add("4", "cali_rt_key", "prefixlen", o, n, "exact", "routes.Key.PrefixLen()")
 		o, n = diffRange(routes.NewKey(c40).AsBytes(), routes.NewKey(c4p).AsBytes(), "rt key addr")
 		add("4", "cali_rt_key", "addr", o, n, "exact", "routes.NewKey(addr)")
 		v0 := routes.NewValueWithNextHop(0, ip.FromNetIP(z4)).AsBytes()
@@ -497,6 +500,32 @@ func buildRows() {
 		add("6", "cali_rt", "next_hop", o, n, "exact", "routes.NewValueV6WithNextHop(nextHop)")
 		o, n = diffRange(v60, routes.NewValueV6WithIfIndex(0, 0x01020304).AsBytes(), "rt6 ifindex")
 		add("6", "cali_rt", "next_hop", o, n, "within", "routes.NewValueV6WithIfIndex(ifIndex)")
+
+		// conntrack cleanup queue value
+		cq0 := cleanupv1.NewValue(make([]byte, conntrack.KeySize), 0, 0).AsBytes()
+		add("4", "cali_ccq_value", "", 0, len(cq0), "exact", "cleanupv1.ValueSize")
+		kk := make([]byte, conntrack.KeySize)
+		for i := range kk {
+			kk[i] = byte(i + 1)
+		}
+		o, n = diffRange(cq0, cleanupv1.NewValue(kk, 0, 0).AsBytes(), "ccq key")
+		add("4", "cali_ccq_value", "rev_key", o, n, "exact", "cleanupv1.NewValue(key)")
+		o, n = diffRange(cq0, cleanupv1.NewValue(make([]byte, conntrack.KeySize), 0x0102030405060708, 0).AsBytes(), "ccq ts")
+		add("4", "cali_ccq_value", "last_seen", o, n, "exact", "cleanupv1.NewValue(ts)")
+		o, n = diffRange(cq0, cleanupv1.NewValue(make([]byte, conntrack.KeySize), 0, 0x0102030405060708).AsBytes(), "ccq rev ts")
+		add("4", "cali_ccq_value", "rev_last_seen", o, n, "exact", "cleanupv1.NewValue(rev_ts)")
+		cq60 := cleanupv1.NewValueV6(make([]byte, conntrack.KeyV6Size), 0, 0).AsBytes()
+		add("6", "cali_ccq_value", "", 0, len(cq60), "exact", "cleanupv1.ValueV6Size")
+		kk6 := make([]byte, conntrack.KeyV6Size)
+		for i := range kk6 {
+			kk6[i] = byte(i + 1)
+		}
+		o, n = diffRange(cq60, cleanupv1.NewValueV6(kk6, 0, 0).AsBytes(), "ccq6 key")
+		add("6", "cali_ccq_value", "rev_key", o, n, "exact", "cleanupv1.NewValueV6(key)")
+		o, n = diffRange(cq60, cleanupv1.NewValueV6(make([]byte, conntrack.KeyV6Size), 0x0102030405060708, 0).AsBytes(), "ccq6 ts")
+		add("6", "cali_ccq_value", "last_seen", o, n, "exact", "cleanupv1.NewValueV6(ts)")
+		o, n = diffRange(cq60, cleanupv1.NewValueV6(make([]byte, conntrack.KeyV6Size), 0, 0x0102030405060708).AsBytes(), "ccq6 rev ts")
+		add("6", "cali_ccq_value", "rev_last_seen", o, n, "exact", "cleanupv1.NewValueV6(rev_ts)")
 
 		i0 := ifstate.NewValue(0, "", 0, 0, 0, 0, 0, 0, 0, 0).AsBytes()
 		names := []string{"xdp_policy_v4", "ingress_policy_v4", "egress_policy_v4", "xdp_policy_v6", "ingress_policy_v6", "egress_policy_v6", "tc_filter_ingress", "tc_filter_egress"}
@@ -647,6 +676,8 @@ func oracleRow(h *rt.H, r Row) {
 		bad = co != r.Off || cn != r.Size
 	case "within":
 		bad = co != 8*r.Off || 8*r.Size > cn
+	case "inside":
+		bad = co > 8*r.Off || 8*r.Off+8*r.Size > co+cn
 	case "offset":
 		bad = co != 8*r.Off
 	}
@@ -731,6 +762,8 @@ func main() {
 			op, out = fmt.Sprintf("off %s %s %s", r.Ver, r.Struct, r.Path), fmt.Sprintf("%d %d", r.Off, r.Size)
 		case r.Mode == "within":
 			op, out = fmt.Sprintf("within %s %s %s %d %d", r.Ver, r.Struct, r.Path, r.Off*8, r.Size*8), "ok"
+		case r.Mode == "inside":
+			op, out = fmt.Sprintf("inside %s %s %s %d %d", r.Ver, r.Struct, r.Path, r.Off*8, r.Size*8), "ok"
 		case r.Mode == "offset":
 			op, out = fmt.Sprintf("within %s %s %s %d 0", r.Ver, r.Struct, r.Path, r.Off*8), "ok"
 		default:
